@@ -34,20 +34,21 @@ const (
 )
 
 type Op struct {
-	Kind        OpKind
-	Delay       time.Duration // wait this long (simulated) after the previous op of this client
-	NoWait      bool          // do not wait for the reply to the previous request
-	Isolated    bool          // fire only when the world is idle and nothing is in flight (exact-oracle probe)
-	Dup         bool          // send the request twice (client retry)
-	AutoConnect bool
-	Msg         *ClientComMessage
-	LoginUser   int    // OpLogin: workload user index
-	LoginScheme string // "basic" | "token"
-	BadSecret   bool
-	CreatesGroup int   // OpMsg {sub new}: registers the created name as group N (-1 = no)
-	KeepID      bool
-	Tag         string // unique content tag for publishes
-	Note        string // free-form label for oracles
+	Kind         OpKind
+	Delay        time.Duration // wait this long (simulated) after the previous op of this client
+	NoWait       bool          // do not wait for the reply to the previous request
+	Isolated     bool          // fire only when the world is idle and nothing is in flight (exact-oracle probe)
+	Dup          bool          // send the request twice (client retry)
+	AutoConnect  bool
+	Msg          *ClientComMessage
+	LoginUser    int    // OpLogin: workload user index
+	LoginScheme  string // "basic" | "token"
+	BadSecret    bool
+	CreatesGroup int // OpMsg {sub new}: registers the created name as group N (-1 = no)
+	KeepID       bool
+	Tag          string // unique content tag for publishes
+	Note         string // free-form label for oracles
+	Raw          []byte // exact bytes to put on the wire (JSON transports only)
 }
 
 func (o *Op) String() string {
